@@ -21,7 +21,8 @@ Definition xleafR (a : bytes) (c : N) (e : bytes) : bytes := 1 :: xlen (c :: a) 
 Definition xleafK (k v : bytes) : bytes := 3 :: xlen k ++ xlen v.
 Definition xH (x : bytes) : bytes := x.
 
-Notation xrestore := (restore xH xtot xflags xleafA xleafR xleafK).
+Notation xrestore := (restore false xH xtot xflags xleafA xleafR xleafK).      (* the accessor as it was *)
+Notation xrestore_fixed := (restore true xH xtot xflags xleafA xleafR xleafK). (* with fixes/C16.patch *)
 
 (* the producer's state: two accounts, the second holds two assets; one box *)
 Definition x_world : world :=
@@ -31,7 +32,7 @@ Definition x_world : world :=
 Definition x_file : list section := write_file 130 512 1 6 8 x_world.
 
 Definition x_label : bytes :=
-  match process_all xtot xflags xleafA xleafR xleafK x_file a_init with
+  match process_all false xtot xflags xleafA xleafR xleafK x_file a_init with
   | Some a => match build_trie (a_hashes a) t_empty with
               | Some t => staged_label xH a t [77]
               | None => []
@@ -91,6 +92,24 @@ Lemma x_plain_rejected :
             SBal [mkRec [1] [5; 0] false []; mkRec [1] [5; 0] false []; mkRec [2] [7; 2] true [(10, [4])]] [] [] [];
             SBal [mkRec [2] [7; 2] false [(11, [6])]] [] [] []; SBal [] [([9], [8])] [] []] x_label 8 [77] = Rejected StTrie.
 Proof. vm_compute. repeat split; reflexivity. Qed.
+
+(* the repaired accessor accepts the honest file and refuses both *)
+Lemma x_fixed :
+  (exists t, xrestore_fixed x_file x_label 8 [77] = Accepted (x_world, t)) /\
+  xrestore_fixed x_prefix x_label 8 [77] = Rejected StProcess /\
+  xrestore_fixed x_dangling x_label 8 [77] = Rejected StTrie.
+Proof. vm_compute. split; [eexists; reflexivity | split; reflexivity]. Qed.
+
+Lemma x_fix_rejects_witnesses :
+  (exists t, xrestore x_prefix x_label 8 [77] =
+             Accepted (mkWorld [([1], [99; 0], []); ([2], [7; 2], [(10, [4]); (11, [6])])] [([9], [8])] [] [] [128] [42], t)) /\
+  (exists t, xrestore x_dangling x_label 8 [77] =
+             Accepted (mkWorld [([1], [5; 0], []); ([2], [7; 2], [(10, [4]); (11, [6])]); ([3], [50; 0], [])]
+                               [([9], [8])] [] [] [128] [42], t)) /\
+  (exists t, xrestore_fixed x_file x_label 8 [77] = Accepted (x_world, t)) /\
+  xrestore_fixed x_prefix x_label 8 [77] = Rejected StProcess /\
+  xrestore_fixed x_dangling x_label 8 [77] = Rejected StTrie.
+Proof. exact (conj x_prefix_accepted (conj x_dangling_accepted x_fixed)). Qed.
 
 Lemma tamper_rejected_refuted :
   exists (f0 f : list section) (label digest : bytes) (rnd : N) (w0 w : world) t0 t,
